@@ -255,4 +255,95 @@ theorem handler_allclose_affine_reexpress_second [UnitClose K] (a b : Qty K) (u 
       have := hall p hp
       simpa only [CloseAbsSI, convVal_absSI b.unit u p.2 hsu] using this
 
+/-! ### every `rtol`: the relative part is measured from the zero of the first operand's scale -/
+
+/-- what one element of the handlers' comparison is in SI terms, for any `rtol`: the absolute SI
+    magnitudes differ by at most `atol` (a difference in the first operand's unit) plus `rtol` times
+    the reference magnitude *measured from the zero of the first operand's scale* (for zero-offset
+    units that is the plain SI magnitude; on °C it is the Celsius reading in kelvins) -/
+def CloseAffineSI (au bu : TUnit K) (rt atl x y : K) : Prop :=
+  |TUnit.si au x - TUnit.si bu y| ≤ atl * au.scale + rt * |TUnit.si bu y - TUnit.si au 0|
+    ∨ TUnit.si au x = TUnit.si bu y
+
+instance (au bu : TUnit K) (rt atl x y : K) : Decidable (CloseAffineSI au bu rt atl x y) := by
+  unfold CloseAffineSI; infer_instance
+
+theorem iscloseElem_affine_rtol (au bu : TUnit K) (rt atl x y : K) (hsa : 0 < au.scale) :
+    iscloseElem rt atl x (convVal bu au y) = true ↔ CloseAffineSI au bu rt atl x y := by
+  have hne : au.scale ≠ 0 := ne_of_gt hsa
+  rw [CloseAffineSI, ← convVal_absSI bu au y hne]
+  generalize convVal bu au y = z
+  simp only [iscloseElem, Bool.or_eq_true, decide_eq_true_eq, beq_iff_eq, mabs_eq_abs, TUnit.si,
+    Ref.absSI]
+  have e1 : (x - au.offset) * au.scale - (z - au.offset) * au.scale = (x - z) * au.scale := by ring
+  have e2 : |(x - z) * au.scale| = |x - z| * au.scale := by rw [abs_mul, abs_of_pos hsa]
+  have e3 : (z - au.offset) * au.scale - (0 - au.offset) * au.scale = z * au.scale := by ring
+  have e4 : |z * au.scale| = |z| * au.scale := by rw [abs_mul, abs_of_pos hsa]
+  have e5 : atl * au.scale + rt * (|z| * au.scale) = (atl + rt * |z|) * au.scale := by ring
+  rw [e1, e2, e3, e4, e5, mul_le_mul_iff_of_pos_right hsa]
+  constructor
+  · rintro (h | h)
+    · exact Or.inl h
+    · exact Or.inr (by rw [h])
+  · rintro (h | h)
+    · exact Or.inl h
+    · have := mul_right_cancel₀ hne h
+      exact Or.inr (by linarith)
+
+/-- **`numpy.isclose` on two quantities in different non-`NULL_UNIT` units of one dimension, every
+    `rtol`, every scale and offset**: exactly the per-pair decisions `CloseAffineSI` -/
+theorem handler_isclose_general [UnitClose K] (a b : Qty K) (rt atl : K)
+    (ha : TUnit.eq a.unit nullUnit = false) (hb : TUnit.eq b.unit nullUnit = false)
+    (he : TUnit.eq b.unit a.unit = false) (hd : b.unit.dim = a.unit.dim)
+    (hsa : 0 < a.unit.scale) :
+    iscloseHandler (.qty a) (.qty b) rt atl
+      = match broadcast2 a.vals b.vals with
+        | none => .error .ValueError
+        | some ps => .ok (ps.map fun p =>
+            decide (CloseAffineSI a.unit b.unit rt atl p.1 p.2)) := by
+  unfold iscloseHandler
+  rw [arrayCompHelper_converts a b ha hb he hd]
+  simp only [npIsclose]
+  have h := broadcast2_map id (convVal b.unit a.unit) a.vals b.vals
+  simp only [List.map_id, id] at h
+  rw [h]
+  cases broadcast2 a.vals b.vals with
+  | none => rfl
+  | some ps =>
+    simp only [Option.map, List.map_map]
+    congr 1
+    apply List.map_congr_left
+    intro p _
+    simp only [Function.comp]
+    rw [Bool.eq_iff_iff, decide_eq_true_iff]
+    exact iscloseElem_affine_rtol a.unit b.unit rt atl p.1 p.2 hsa
+
+/-- `numpy.allclose` likewise, every `rtol` -/
+theorem handler_allclose_general_iff_si [UnitClose K] (a b : Qty K) (rt atl : K)
+    (ha : TUnit.eq a.unit nullUnit = false) (hb : TUnit.eq b.unit nullUnit = false)
+    (he : TUnit.eq b.unit a.unit = false) (hd : b.unit.dim = a.unit.dim)
+    (hsa : 0 < a.unit.scale) :
+    allcloseHandler (.qty a) (.qty b) rt atl = .ok true ↔
+      ∃ ps, broadcast2 a.vals b.vals = some ps ∧
+        ∀ p ∈ ps, CloseAffineSI a.unit b.unit rt atl p.1 p.2 := by
+  unfold allcloseHandler
+  rw [arrayCompHelper_converts a b ha hb he hd]
+  simp only
+  have h := npAllclose_map_iff rt atl id (convVal b.unit a.unit) a.vals b.vals
+  simp only [List.map_id, id] at h
+  rw [h]
+  constructor
+  · rintro ⟨ps, hps, hall⟩
+    exact ⟨ps, hps, fun p hp => (iscloseElem_affine_rtol _ _ _ _ _ _ hsa).mp (hall p hp)⟩
+  · rintro ⟨ps, hps, hall⟩
+    exact ⟨ps, hps, fun p hp => (iscloseElem_affine_rtol _ _ _ _ _ _ hsa).mpr (hall p hp)⟩
+
+/-- with zero-offset units the reference magnitude is the plain SI magnitude (`handler_allclose_iff_si`
+    is the special case) -/
+theorem closeAffineSI_linear (au bu : TUnit K) (rt atl x y : K) (ha : au.offset = 0)
+    (hb : bu.offset = 0) :
+    CloseAffineSI au bu rt atl x y ↔
+      (Ref.closeSI rt (atl * au.scale) (x * au.scale) (y * bu.scale) ∨ x * au.scale = y * bu.scale) := by
+  simp [CloseAffineSI, TUnit.si, Ref.absSI, ha, hb, Ref.closeSI, absK_eq_abs]
+
 end Unyt.C19
